@@ -181,7 +181,16 @@ pub fn gen_random(seed: u64, idx: u64) -> Plan {
                     steps.push(disconnect_step(kind));
                     break;
                 }
-                steps.push(Step::Send { data: Blob(bytes), completes: Some(j) });
+                if w.unread() && j == vj && r.chance(1, 2) {
+                    // the body, which the endpoint will not read, follows the
+                    // head in a write of its own a little later
+                    let hl = bytes.windows(4).position(|x| x == b"\r\n\r\n").map(|p| p + 4).unwrap_or(bytes.len());
+                    steps.push(Step::Send { data: Blob(bytes[..hl].to_vec()), completes: None });
+                    steps.push(Step::Sleep { ms: r.range(5, 60) });
+                    steps.push(Step::Send { data: Blob(bytes[hl..].to_vec()), completes: Some(j) });
+                } else {
+                    steps.push(Step::Send { data: Blob(bytes), completes: Some(j) });
+                }
                 total_ms += u64::from(w.steps) * w.step_ms;
                 if j == vj && place == 1 {
                     steps.push(Step::Sleep { ms: r.range(0, total_ms + 100) });
@@ -500,24 +509,11 @@ impl Scenario for C16 {
     }
 }
 
-/// The bytes the client wrote for request `j` of a raw connection.
-fn request_bytes(cp: &ConnPlan, j: usize) -> Vec<u8> {
-    let mut buf = Vec::new();
-    for s in &cp.steps {
-        if let Step::Send { data, completes } = s {
-            buf.extend_from_slice(&data.0);
-            match completes {
-                Some(k) if *k == j => return buf,
-                Some(_) => buf.clear(),
-                None => {}
-            }
-        }
-    }
-    buf
-}
 
 /// The request goes to an endpoint without a body parameter: its body stays
 /// unread (known finding `c16.unread_body_disconnect_not_noticed`).
+
+
 fn unread_body(rq: &ReqPlan) -> bool {
     matches!(&rq.expect, Expect::Work { op, .. } if *op == crate::api::work::OP_WORK_POST)
 }
@@ -843,8 +839,16 @@ pub fn check_c16(
                     }),
                     Some(r) => {
                         if let Err(e) = work_response_ok(rq, &r.resp) {
+                            // a body delimited by the end of the connection
+                            // (HTTP/1.0) cut short by the same shutdown
+                            // without flush shows as a proper prefix
+                            let cut_short = first_unread.map(|u| k >= u).unwrap_or(false)
+                                && r.resp.framing == crate::http1::Framing::UntilEof
+                                && r.resp.status == 200
+                                && matches!(&rq.expect, Expect::Work { resp_bytes, body, op, .. }
+                                    if expected_work_body(rq.nonce, *op, *body, *resp_bytes).starts_with(&r.resp.body));
                             v.push(Violation {
-                                rule: "c16.bystander".into(),
+                                rule: if cut_short { "c16.response_truncated_on_close".into() } else { "c16.bystander".into() },
                                 detail: format!("conn {ci} request {k} (nonce {}): {e}", rq.nonce),
                             });
                         }
